@@ -33,7 +33,14 @@ SPECS = [
     ("L0_STOP_WRITES_TRIGGER", "src/config.rs", r"const L0_STOP_WRITES_TRIGGER: usize = ([^;]+);"),
     ("MAX_MEM_COMPACT_LEVEL", "src/config.rs", r"const MAX_MEM_COMPACT_LEVEL: usize = ([^;]+);"),
     ("BLOCK_DESCRIPTOR_SIZE_BYTES", "src/tables/constants.rs", r"const BLOCK_DESCRIPTOR_SIZE_BYTES: usize = ([^;]+);"),
+    # compaction scoring (`Version::finalize`, `Version::max_bytes_for_level`); float literals `10.` are integers here
+    ("SCORED_LEVELS", "src/versioning/version.rs", r"fn finalize\(&mut self\) \{.*?for level in 0\.\.([^{]+?)\{"),
+    ("STARTING_MULTIPLE_BYTES", "src/versioning/version.rs", r"let starting_multiple_bytes: f64 = ([^;]+);"),
+    ("LEVEL_ONE_MAX_BYTES", "src/versioning/version.rs", r"let mut level = level;\s*let mut result: f64 = ([^;]+);"),
+    ("LEVEL_MAX_BYTES_MULTIPLIER", "src/versioning/version.rs", r"while level > 1 \{\s*result \*= ([^;]+);"),
 ]
+# names used inside right-hand sides
+ALIASES = {"starting_multiple_bytes": "STARTING_MULTIPLE_BYTES"}
 
 def ev(expr, env):
     expr = expr.strip().replace("_", "") if re.fullmatch(r"[0-9a-fA-Fx_]+", expr.strip()) else expr.strip()
@@ -68,6 +75,9 @@ def main():
             missing.append((name, f)); continue
         rhs = re.sub(r"\bas (usize|u\d+)\b", "", m.group(1))
         rhs = re.sub(r"(\d)_(\d)", r"\1\2", rhs)
+        rhs = re.sub(r"(\d)\.(?!\d)", r"\1", rhs)   # `10.` -> `10` (an f64 literal with an integer value)
+        for a, b in ALIASES.items():
+            rhs = re.sub(r"\b" + a + r"\b", b, rhs)
         try:
             v = ev(rhs, env)
         except Exception as e:
